@@ -363,7 +363,11 @@ func RunProp[C any](t *testing.T, p Prop[C]) {
 			if t.Failed() && last != nil {
 				reportViolation(p.ID, p.Sub, *last, lastMsg)
 			} else if t.Failed() {
-				reportViolation(p.ID, p.Sub, "no case captured (generator or harness failure)", "see test output")
+				// a failure without a captured case is a generator / harness
+				// problem (e.g. a reference self-check), never a violation
+				outMu.Lock()
+				fmt.Printf("HARNESS-FAILURE property=%s sub=%s (no failing case captured; see test output)\n", p.ID, p.Sub)
+				outMu.Unlock()
 			}
 		}()
 		n := Scale(p.Quick, p.Thorough)
